@@ -5228,7 +5228,7 @@ class State:
                  otherwise ``False``.
         """
         try:
-            self.verify_runout_count_selection(player_index)
+            self.verify_runout_count_selection(runout_count, player_index)
         except (ValueError, UserWarning):
             return False
 
@@ -5263,7 +5263,10 @@ class State:
         :raises ValueError: If the runout-count selection cannot be
                             done.
         """
-        player_index = self.verify_runout_count_selection(player_index)
+        player_index = self.verify_runout_count_selection(
+            runout_count,
+            player_index,
+        )
 
         assert self.runout_count_selector_statuses[player_index]
 
